@@ -194,6 +194,8 @@ func goString(v value, what string) string {
 		return s
 	case opaqueStr:
 		panic(unsupported{what + ": opaque string " + s.desc})
+	case decStr:
+		panic(unsupported{what + ": decimal token of a symbolic integer"})
 	}
 	panic(fmt.Sprintf("%s: not a string: %T", what, v))
 }
@@ -321,7 +323,7 @@ func (i *interpreter) nativeArg(v value) (interface{}, bool) {
 			return nil, true
 		}
 		return fmt.Sprintf("%p", x), true
-	case symv, symb, opaqueStr:
+	case symv, symb, opaqueStr, decStr:
 		return nil, false
 	case structure:
 		if containsSym(x) {
@@ -348,6 +350,15 @@ func isErrorOrStringer(i *interpreter, x iface) bool {
 }
 
 func (i *interpreter) sprintf(format string, args []value) value {
+	if format == "%d" && len(args) == 1 {
+		v := args[0]
+		if itf, ok := v.(iface); ok {
+			v = itf.v
+		}
+		if s, ok := v.(symv); ok && kindWidth(s.k) == 64 {
+			return decStr{s.t}
+		}
+	}
 	native := make([]interface{}, len(args))
 	for k, a := range args {
 		n, ok := i.nativeArg(a)
